@@ -5,7 +5,7 @@
    Section variables: they are the trusted base named in the evidence.  Everything about integers,
    booleans, text, categorical labels, paths, the group-by split and the index lookup is proved.   *)
 From Coq Require Import NArith ZArith Bool Ascii String List Permutation.
-From Pq Require Import Base.Bytes Impl.Partition Proofs.PartitionStr Proofs.PartitionProofs Proofs.PartitionE2E Proofs.PartitionNulls.
+From Pq Require Import Base.Bytes Impl.Partition Proofs.PartitionStr Proofs.PartitionProofs Proofs.PartitionE2E Proofs.PartitionNulls Impl.PartHandle Proofs.PartHandleProofs.
 Import ListNotations.
 
 Section C08.
@@ -198,7 +198,30 @@ Section C08.
     (forall r, In r rows -> nonnull F T D P r = false) ->
     write_chunk F T D feqb teqb deqb f_eq_Z show_float show_time_iso show_time_str P hive names i rows = [].
   Proof. exact (write_chunk_all_null F T D feqb teqb deqb f_eq_Z show_float show_time_iso show_time_str P). Qed.
+
+  (* ---- one handle, edited through its own methods (wave 3; Impl/PartHandle.v) ----
+     ParquetFile.write_row_groups / remove_row_groups change the row groups and re-derive scheme and cats (_set_attrs).  For EVERY
+     dataset, EVERY sequence of appends and removals through the handle, the read through the handle - which uses the partition state
+     STORED on the handle - is the read of a freshly opened handle on the files it then has; with C08_multiset_* the rows and
+     partition values are then right after any such program.  Tie: stream F (programs on one handle vs a fresh handle vs read_model). *)
+  Theorem C08_handle_programs : forall (pm : list (str * kind)) (ord : list str -> list str)
+      (fs : list (str * list (row F T D P))) (ops : list (edit F T D P)),
+    h_read F T D feqb teqb deqb f_eq_Z parse_float parse_time_np parse_time_fmt parse_time_pd parse_delta P pm
+      (fold_left (h_edit F T D feqb teqb deqb f_eq_Z parse_float parse_time_np parse_time_fmt parse_time_pd parse_delta P pm ord) ops
+                 (h_open F T D feqb teqb deqb f_eq_Z parse_float parse_time_np parse_time_fmt parse_time_pd parse_delta P pm ord fs))
+    = read_model F T D feqb teqb deqb f_eq_Z parse_float parse_time_np parse_time_fmt parse_time_pd parse_delta P pm ord
+        (fold_left (apply_edit F T D P) ops fs).
+  Proof. exact (handle_program F T D feqb teqb deqb f_eq_Z parse_float parse_time_np parse_time_fmt parse_time_pd parse_delta P). Qed.
 End C08.
+
+(* the same edit WITHOUT re-deriving the stored partition state (anything cached on the handle that an edit does not refresh):
+   the read through the handle differs from the fresh read - computed witness: k=a on disk, k=b appended through the handle *)
+Theorem C08_handle_stale_state_refuted :
+  exists (fs : list (str * list (row E0 E0 E0 nat))) (e : edit E0 E0 E0 nat),
+    c_h_read (h_edit_stale E0 E0 E0 nat (c_h_open fs) e) <> cread [(s_ "k", KStr)] (apply_edit E0 E0 E0 nat fs e).
+Proof. exact handle_stale_state_refuted. Qed.
+Print Assumptions C08_handle_stale_state_refuted.
+Print Assumptions C08_handle_programs.
 
 Print Assumptions C08_null_keys_nowhere.
 Print Assumptions C08_single_key_with_nulls.
